@@ -143,7 +143,7 @@ Section Rescan.
         rewrite (map_mark_split cf_name (fun s f0 => if s then mkSF f0 true false else unseen_file f0) LFile P e pre f post Hk); [reflexivity | rewrite <- Ef; exact rc_fnames0 | exact Mn]. }
     assert (Hmark : forall g, In g pre \/ In g post -> mark_file P g = mkSF g true false \/ mark_file P g = unseen_file g).
     { intros g _. unfold mark_file. destruct (seen LFile P (cf_name g)); auto. }
-    unfold scan_file. cbn [stable_state sd_files sd_ins]. rewrite Esplit. unfold mark_file at 2. rewrite Hunseen. unfold unseen_file at 2.
+    unfold scan_file. cbn [stable_state sd_files sd_ins]. rewrite Esplit. unfold mark_file at 2. rewrite Hunseen. unfold unseen_file.
     destruct usable eqn:Eu.
     - (* found by inode *)
       rewrite split_first_at.
@@ -155,7 +155,7 @@ Section Rescan.
           apply N.eqb_neq; apply Hino; auto.
     - (* inodes unusable: not found by inode, found by path *)
       rewrite split_first_all_false.
-      + cbn [find]. unfold by_name. cbn [sd_files sd_ins]. rewrite Esplit. unfold mark_file at 2. rewrite Hunseen. unfold unseen_file at 2. rewrite Eu.
+      + cbn [find]. unfold by_name. cbn [stable_state sd_files sd_ins]. rewrite Esplit. unfold mark_file at 2. rewrite Hunseen. unfold unseen_file. rewrite Eu.
         rewrite split_first_at.
         * cbn [sf_f sf_present sf_noinode negb andb]. rewrite <- Mi. rewrite cf_set_inode_back.
           rewrite (ematch_attrs_same e f Hm). rewrite (upd_nsec_id f e Mns). rewrite Efinal. reflexivity.
@@ -184,7 +184,7 @@ Section Rescan.
     - cbn [cl_name]. rewrite (seen_false_notin LSym P (le_name e) Hnew). cbn [cl_to cl_hard]. rewrite N.eqb_refl. cbn [Bool.eqb andb].
       unfold stable_state. rewrite stable_files_other, stable_dirs_other by congruence. rewrite count_kind_snoc, Hk.
       rewrite El. rewrite (map_mark_split cl_name (fun s l => (l, s)) LSym P e pre _ post Hk); [|rewrite <- El; exact rc_lnames0 | reflexivity].
-      cbn. unfold inc_equal. simpl. f_equal. f_equal. lia.
+      cbn. unfold inc_equal. simpl. rewrite Nat.add_1_r. reflexivity.
     - simpl. apply N.eqb_refl.
     - intros y Hy. apply in_map_iff in Hy. destruct Hy as [l [E Hlin]]. subst y. simpl. apply N.eqb_neq. intro Hc.
       rewrite El in rc_lnames0. rewrite map_app in rc_lnames0. simpl in rc_lnames0. apply NoDup_remove_2 in rc_lnames0.
@@ -202,7 +202,7 @@ Section Rescan.
     - rewrite (seen_false_notin LDir P (le_name e) Hnew).
       unfold stable_state. rewrite stable_files_other, stable_links_other by congruence. rewrite count_kind_snoc, Hk.
       rewrite El. rewrite (map_mark_split (fun n : N => n) (fun s n => (n, s)) LDir P e pre _ post Hk); [|rewrite map_id, <- El; exact rc_dnames0 | reflexivity].
-      cbn. f_equal. f_equal. lia.
+      cbn. rewrite Nat.add_0_r. reflexivity.
     - simpl. apply N.eqb_refl.
     - intros y Hy. apply in_map_iff in Hy. destruct Hy as [n [E Hn]]. subst y. simpl. apply N.eqb_neq. intro Hc.
       rewrite El in rc_dnames0. apply NoDup_remove_2 in rc_dnames0. apply rc_dnames0. rewrite <- Hc. apply in_app_iff. left. exact Hn.
@@ -272,3 +272,119 @@ Section Rescan.
     rewrite !map_map. cbn. rewrite !map_id, !app_nil_r. destruct d0; reflexivity.
   Qed.
 End Rescan.
+
+(* --- the whole scan ----------------------------------------------------------------------------------------------------------- *)
+Section RescanAll.
+  Variables (basef : N -> N) (bs : N) (clearpast nocopy : bool) (inf : list (option info)).
+  Variable usable : list bool.
+  Variable c : content.
+  Variable L : list (list lentry).
+
+  Hypothesis Hrec : forall k d, nth k (c_disks c) None = Some d -> recorded d (nth k L []).
+  Hypothesis Hnone : forall k, nth k (c_disks c) None = None -> nth k L [] = [].
+
+  Let n := length (c_disks c).
+  (* the world when the disks below i are done *)
+  Definition W (i : nat) : world :=
+    map (fun kd : nat * option cdisk =>
+           match snd kd with
+           | Some d => Some (stable_state (nth (fst kd) usable false) d (if fst kd <? i then nth (fst kd) L [] else []))
+           | None => None
+           end) (combine (seq 0 n) (c_disks c)).
+
+  Lemma W_length i : length (W i) = n.
+  Proof. unfold W. rewrite map_length, combine_length, seq_length. unfold n. lia. Qed.
+  Lemma W_nth i k : nth k (W i) None =
+    match nth k (c_disks c) None with
+    | Some d => Some (stable_state (nth k usable false) d (if k <? i then nth k L [] else []))
+    | None => None
+    end.
+  Proof.
+    destruct (Nat.lt_ge_cases k n) as [H|H].
+    - unfold W, n in *. rewrite (nth_map_combine_seq0 _ _ None None) by exact H. reflexivity.
+    - rewrite nth_overflow by (rewrite W_length; exact H). rewrite nth_overflow by exact H. reflexivity.
+  Qed.
+
+  Lemma W_step k : k < n ->
+    fold_opt (scan_entry basef bs clearpast nocopy inf (nth k usable false) k) (nth k L []) (W k) = Some (W (S k)).
+  Proof.
+    intro Hk. destruct (nth k (c_disks c) None) as [d|] eqn:Ed.
+    - assert (Hs : nth k (W k) None = Some (stable_state (nth k usable false) d [])).
+      { rewrite W_nth, Ed. rewrite Nat.ltb_irrefl. reflexivity. }
+      rewrite (entries_stable basef bs clearpast nocopy inf (nth k usable false) d (nth k L []) k (Hrec k d Ed) (nth k L []) [] (W k) eq_refl Hs).
+      f_equal. apply (nth_ext _ _ None None).
+      + rewrite set_disk_length, !W_length. reflexivity.
+      + intros j Hj. rewrite set_disk_length, W_length in Hj. destruct (Nat.eq_dec j k) as [->|Hne].
+        * rewrite nth_set_disk_same by (rewrite W_length; exact Hk). rewrite W_nth, Ed.
+          assert (E : (k <? S k) = true) by (apply Nat.ltb_lt; lia). rewrite E. reflexivity.
+        * rewrite nth_set_disk_other by exact Hne. rewrite !W_nth. destruct (nth j (c_disks c) None); [|reflexivity].
+          assert (E : (j <? S k) = (j <? k)).
+          { destruct (j <? k) eqn:E1; [apply Nat.ltb_lt in E1; apply Nat.ltb_lt; lia | apply Nat.ltb_ge in E1; apply Nat.ltb_ge; lia]. }
+          rewrite E. reflexivity.
+    - rewrite (Hnone k Ed). simpl. f_equal. apply (nth_ext _ _ None None); [rewrite !W_length; reflexivity|].
+      intros j Hj. rewrite !W_nth. destruct (nth j (c_disks c) None) as [d|] eqn:Ej; [|reflexivity].
+      assert (Hne : j <> k) by (intro; subst; congruence).
+      assert (E : (j <? S k) = (j <? k)).
+      { destruct (j <? k) eqn:E1; [apply Nat.ltb_lt in E1; apply Nat.ltb_lt; lia | apply Nat.ltb_ge in E1; apply Nat.ltb_ge; lia]. }
+      rewrite E. reflexivity.
+  Qed.
+
+  Lemma W_fold len : forall i, i + len = n ->
+    fold_opt (fun w k => fold_opt (scan_entry basef bs clearpast nocopy inf (nth k usable false) k) (nth k L []) w) (seq i len) (W i) = Some (W n).
+  Proof.
+    induction len as [|len IH]; intros i Hi; simpl.
+    - replace i with n by lia. reflexivity.
+    - rewrite W_step by lia. apply IH. lia.
+  Qed.
+
+  Lemma prepare_is_W0 : map (fun kd : nat * option cdisk => match snd kd with Some d => Some (prepare (nth (fst kd) usable false) d) | None => None end)
+                            (combine (seq 0 (length (c_disks c))) (c_disks c)) = W 0.
+  Proof.
+    unfold W. fold n. apply map_ext. intros [k od]. simpl. destruct od as [d|]; [|reflexivity]. f_equal.
+    unfold prepare, stable_state. reflexivity.
+  Qed.
+
+  Lemma in_combine_seq_nth {A} (l : list A) (dflt : A) k x : In (k, x) (combine (seq 0 (length l)) l) -> nth k l dflt = x /\ k < length l.
+  Proof.
+    intro H. apply (In_nth _ _ (0, dflt)) in H. destruct H as [i [Hi E]]. rewrite combine_length, seq_length in Hi.
+    assert (Hi' : i < length l) by lia. rewrite combine_nth in E by (rewrite seq_length; reflexivity).
+    rewrite seq_nth in E by exact Hi'. inversion E; subst. split; [apply nth_indep; exact Hi' | exact Hi'].
+  Qed.
+
+  Theorem rescan_no_difference :
+    exists o, scan basef bs clearpast nocopy inf usable c L = Some o /\
+              c_disks (sc_content o) = c_disks c /\ c_info (sc_content o) = c_info c /\ c_blockmax (sc_content o) = c_blockmax c /\
+              cnt_differs (sc_cnt o) = false /\
+              n_move (sc_cnt o) = 0 /\ n_copy (sc_cnt o) = 0 /\ n_restore (sc_cnt o) = 0 /\ n_change (sc_cnt o) = 0 /\
+              n_remove (sc_cnt o) = 0 /\ n_insert (sc_cnt o) = 0.
+  Proof.
+    unfold scan. rewrite prepare_is_W0. unfold phase1. rewrite W_length. rewrite (W_fold n 0) by lia.
+    eexists. split; [reflexivity|]. cbn [sc_content sc_cnt c_disks c_info c_blockmax].
+    assert (Efin : map (fun od : option sdisk => match od with Some d => Some (finish_disk clearpast inf d) | None => None end) (W n)
+                   = map (fun kd : nat * option cdisk => match snd kd with Some d => Some (d, mkCnt (count_kind (nth (fst kd) L [])) 0 0 0 0 0 0) | None => None end)
+                         (combine (seq 0 n) (c_disks c))).
+    { unfold W. rewrite map_map. apply map_ext_in. intros [k od] Hin. simpl. destruct od as [d|]; [|reflexivity].
+      destruct (in_combine_seq_nth (c_disks c) None k (Some d) Hin) as [Ek Hk]. fold n in Hk.
+      assert (E : (k <? n) = true) by (apply Nat.ltb_lt; exact Hk). rewrite E.
+      rewrite (finish_stable clearpast inf (nth k usable false) d (nth k L []) (Hrec k d Ek)). reflexivity. }
+    rewrite Efin. split; [|split; [reflexivity|split; [reflexivity|]]].
+    - rewrite map_map. simpl.
+      transitivity (map snd (combine (seq 0 n) (c_disks c))).
+      + apply map_ext. intros [k od]. simpl. destruct od; reflexivity.
+      + clear. unfold n. generalize 0. induction (c_disks c) as [|x t IH]; intro s; simpl; [reflexivity | rewrite IH; reflexivity].
+    - set (fin := map _ (combine (seq 0 n) (c_disks c))).
+      assert (G : forall l a, n_move a = 0 /\ n_copy a = 0 /\ n_restore a = 0 /\ n_change a = 0 /\ n_remove a = 0 /\ n_insert a = 0 ->
+                  (forall o, In (Some o) l -> exists m, snd o = mkCnt m 0 0 0 0 0 0) ->
+                  let t := fold_left (fun a (o : option (cdisk * counters)) => match o with Some dc => cnt_add a (snd dc) | None => a end) l a in
+                  n_move t = 0 /\ n_copy t = 0 /\ n_restore t = 0 /\ n_change t = 0 /\ n_remove t = 0 /\ n_insert t = 0).
+      { induction l as [|x t IH]; intros a Ha Hl; simpl; [exact Ha|]. apply IH; [|intros o0 Ho; apply Hl; right; exact Ho].
+        destruct x as [[d cn]|]; [|exact Ha]. destruct (Hl (d, cn) (or_introl eq_refl)) as [m Em]. simpl in Em. subst cn.
+        destruct Ha as (A1 & A2 & A3 & A4 & A5 & A6). unfold cnt_add. simpl. rewrite A1, A2, A3, A4, A5, A6. repeat split; reflexivity. }
+      assert (Z : forall o0, In (Some o0) fin -> exists m, snd o0 = mkCnt m 0 0 0 0 0 0).
+      { intros o0 Ho. unfold fin in Ho. apply in_map_iff in Ho. destruct Ho as [[k od] [E _]]. simpl in E. destruct od; [|discriminate].
+        inversion E; subst. simpl. eexists. reflexivity. }
+      destruct (G fin cnt0 ltac:(simpl; repeat split; reflexivity) Z) as (T1 & T2 & T3 & T4 & T5 & T6).
+      split; [|repeat split; assumption].
+      unfold cnt_differs. rewrite T1, T2, T3, T4, T5, T6. reflexivity.
+  Qed.
+End RescanAll.
